@@ -23,6 +23,6 @@ PROP = dict(
                  "TopN is only probed with explicit ids (exact counts) on fields not touched by clear-import/roaring import/Store/ClearRow (D14, other owner)"],
     tags=["gs"],
     units=[
-        U("restart", "./server", "^TestVerifC08_Restart$", 128, 4000, sq=4, sth=12, timeout={"quick": 600, "thorough": 3000}),
+        U("restart", "./server", "^TestVerifC08_Restart$", 128, 2400, sq=4, sth=12, timeout={"quick": 600, "thorough": 3000}),
     ],
 )
